@@ -110,6 +110,27 @@ theorem mixture_sum_one (d : Density) (hd : ∀ s, d = .betaBinomial s → 0 < s
 example : ∀ s, Density.betaBinomial 400 = .betaBinomial s → 0 < s := by
   intro s h; cases h; norm_num
 
+/-- **The likelihood is strictly positive** (its log is finite) for every valid input: copy numbers
+with `major ≥ 1`, `normal ≥ 1`, tumour content in (0,1], error rate in (0,½), prevalence in [0,1],
+any counts, both densities (precision `s > 0`). -/
+theorem lik_pos (d : Density) (hd : ∀ s, d = .betaBinomial s → 0 < s) (o : Obs) (f : ℚ)
+    (hmaj : 1 ≤ o.major) (hnorm : 1 ≤ o.normal) (he0 : 0 < o.eps) (he1 : o.eps < 1 / 2)
+    (ht0 : 0 < o.t) (ht1 : o.t ≤ 1) (hf0 : 0 ≤ f) (hf1 : f ≤ 1) :
+    0 < sampleLik d o f := by
+  rw [sampleLik_eq_lsum]
+  have hne := genotypes_ne_nil o.major o.minor o.normal o.eps hmaj
+  apply lsum_pos _ hne
+  intro g hg
+  obtain ⟨_, h0, _, h1, _⟩ :=
+    vaf_in_unit o.major o.minor o.normal o.eps o.t f hmaj hnorm he0 he1 ht0 ht1 hf0 hf1 g hg
+  have hlen : (0 : ℚ) < ((genotypes o.major o.minor o.normal o.eps).length : ℚ) := by
+    have : 0 < (genotypes o.major o.minor o.normal o.eps).length := List.length_pos_iff.mpr hne
+    exact_mod_cast this
+  exact mul_pos (one_div_pos.mpr hlen) (genoLik_pos d hd (Nat.le_add_left _ _) h0 h1)
+
+example : (1 : ℕ) ≤ (⟨3, 2, 2, 1, 2, 1 / 8, 3 / 4⟩ : Obs).major ∧ (0 : ℚ) < 3 / 4 ∧ (3 / 4 : ℚ) ≤ 1 := by
+  refine ⟨by decide, by norm_num, by norm_num⟩
+
 /-- **Grid.**  Entry `(s, k)` of a mutation's grid is the mixture likelihood of its sample-`s`
 observation at cellular prevalence `k / (G - 1)` (index 0 is prevalence 0, index `G-1` is 1). -/
 theorem grid_point (d : Density) (G : ℕ) (rows : List Obs) (s k : ℕ) (hs : s < rows.length)
